@@ -5,6 +5,6 @@ cd /repo || exit 2
 if ! git diff --quiet; then echo "/repo has uncommitted changes"; exit 2; fi
 if ! git apply $d/patch.diff; then echo "patch does not apply"; exit 2; fi
 for p in "$@"; do
-  (cd /verif && ./check $p > /tmp/try_seed.$p.out 2>&1; rc=$?; echo "== $p rc=$rc"; grep -E "^(VIOLATION|  rule=|ANALYSIS-BROKEN)" /tmp/try_seed.$p.out | cut -c1-400 | head -8)
+  (cd /verif && VERIF_OUT=/tmp/try_seed_out ./check $p > /tmp/try_seed.$p.out 2>&1; rc=$?; echo "== $p rc=$rc"; grep -E "^(VIOLATION|  rule=|ANALYSIS-BROKEN)" /tmp/try_seed.$p.out | cut -c1-400 | head -8)
 done
 git checkout -- .
